@@ -136,7 +136,7 @@ def check(pid, tier, scratch, replay):
     cov = dict(states=mc.get('distinct', 1), transitions=mc.get('generated', 1), traces_validated_against_impl=len(jobs) - infra,
                samples=samples, fault_free_twins=len(base), history_fault_points=n_hist_faults, faulted_steps_by_action=by_action,
                quiescent_points_compared=compared, inconclusive=infra, generator_runs=gen_runs,
-               free_running_traces_with_injected_faults_judged_by_tlc=tjudged, trace_judge_states=tstates,
+               free_running_traces_with_injected_faults_judged_by_tlc=tjudged, trace_lines_by_event=dict(sorted(props.TRACE_EVENTS.items())), trace_judge_states=tstates,
                evaluations=len(jobs), distinct_nontrivial=len(set(json.dumps([j['opt'], props.describe(j['h'])]) for j in jobs)),
                rule='(history, step, storage-call index) triples: the fault-free twin counts the storage calls of each step; the chosen call then fails once; block steps must roll back and be repaired by the next tip, API calls must report and succeed when repeated, worker steps must be re-queued; at every later quiescent point the wallet API is compared with the specification (the fault-free run)',
                exhaustive=False)
